@@ -427,6 +427,20 @@ def check(ctx, rep):
             rep.ob("R-CURRY", "keyword value bound under its own name", ok, "stores: %s" % [("%s = %s" % (fmt(e.d["target"]), fmt(e.d["value"]))) for e in kwst if e.kind == "store"], where_of(out), trace_of(p))
     rep.require(kinds == {"positional", "keyword"} or TAG is None, "%s: expected a positional and a keyword path" % out.qualname)
 
+    # ---- a failing argument future must fail the output: the helper that copies the failure on must cope with any
+    # future the user passes, including proxies (shared with C17)
+    # every currying level is a flat-map future that the next level subscribes to from another thread: its completion
+    # and that registration must exclude each other, or a level's callback -- and with it the output -- is lost
+    # (shared with C02)
+    from .c02 import trans_rule, addcb_rule
+    P_ = roles.proto(ctx)
+    MR_ = roles.map_roles(ctx)
+    trans_rule(ctx, rep, [c for c in prog.subclasses(MR_.mf)], P_.dispatch, P_.lock)
+    addcb_rule(ctx, rep)
+    from .c17 import probe_rule
+    rep.rule("R-PROBE", "library code that handles a future it was given never uses hasattr/getattr on it with a name outside the Future API (a proxy argument would forward the lookup to the awaited result and the failure would never be copied to the output)")
+    probe_rule(ctx, rep, "R-PROBE")
+
     # ---- closures that run later must not see a variable that is re-bound after they were created
     for owner in [R] + [f for f in prog.functions.values() if f.parent is not None and _top(f) is R]:
         assigned = {}
